@@ -202,11 +202,13 @@ impl RunReport {
         let _ = std::fs::write(&evpath, serde_json::to_string_pretty(&ev).unwrap());
         println!("{} {}: wall {:.1}s, {} deviation signature(s), {} known finding(s), {} violation(s); evidence {}",
             self.property, self.tier, wall, by_sig.len(), known_seen.len(), violations.len(), evpath.display());
-        if !self.machinery_errors.is_empty() {
-            return 2;
-        }
+        // a violation that was found stands whatever else went wrong in the run (a subject that crashes tends to leave
+        // a case or two without a verdict as well); machinery trouble alone is never a verdict
         if !violations.is_empty() {
             return 1;
+        }
+        if !self.machinery_errors.is_empty() {
+            return 2;
         }
         0
     }
